@@ -321,6 +321,7 @@ class SenderAck(Job):
         check(written == data, "the record pipe did not receive exactly the file's bytes")
         if res and res[0][0] == "ok":
             check(not ack_lost, "sender reports success although the acknowledgement never arrived")
+            check("a" in holder, "sender reports success without having read the receiver's acknowledgement")
             a, h = holder["a"], holder["h"]
             check(a == "ok", "sender reports success without ack == 'ok'")
             check(sym_or(h == ABSENT, h == expected_hex), "sender reports success although the receiver's hash differs")
